@@ -812,6 +812,8 @@ type genReq struct {
 	Head string `json:"head"`
 	Rep  string `json:"rep"`
 	N    int    `json:"n"`
+	Mid  string `json:"mid"`  // after the repetitions
+	Tail string `json:"tail"` // ... followed by n times tail (closers of what rep opened)
 }
 
 var refusedTexts = []string{
@@ -851,7 +853,7 @@ func handle(req request) interface{} {
 		var outs []c09Out
 		if req.Gen != nil {
 			// "never loops forever" for an input of many megabytes: the watchdog grows with the input (1 s per 200 KB)
-			input := req.Gen.Head + strings.Repeat(req.Gen.Rep, req.Gen.N)
+			input := req.Gen.Head + strings.Repeat(req.Gen.Rep, req.Gen.N) + req.Gen.Mid + strings.Repeat(req.Gen.Tail, req.Gen.N)
 			old := watchdog
 			watchdog = 2*time.Second + time.Duration(len(input)/200000)*time.Second
 			o := runC09(input, false)
